@@ -572,6 +572,61 @@ pub fn print_texts(mode: Mode, run: &mut Run) -> Stats {
             }
         }
     }
+    // reading the output is an observation: reading twice gives the same text, and a state whose output has been
+    // read goes on printing after what it had (perform and run_to_completion on the very state that was read)
+    {
+        for first in ["", "17 then ", "\u{e9}"] {
+            for limit in [1usize, 2, 5] {
+                st.transitions += 1;
+                let mut pre = RState::empty([8; 4]);
+                pre.out = first.as_bytes().to_vec();
+                pre.int = vec![7, -4];
+                pre.exec = vec![
+                    PushProgram::Instruction(PushInstruction::PrintString(push::instruction::printing::PrintString::new("done".to_string()))),
+                    PushProgram::Instruction(PushInstruction::PrintNewline(push::instruction::printing::PrintNewline::new())),
+                    PushProgram::Instruction(crate::interp::int_variant("Print").into()),
+                ];
+                let mut real = make_real(&pre, limit);
+                let r1 = real.stdout_string().unwrap_or_default();
+                let r2 = real.stdout_string().unwrap_or_default();
+                let mut problem = (r1 != first || r2 != first).then(|| format!("the output was {first:?}; read twice it gave {r1:?} and {r2:?}"));
+                if problem.is_none() {
+                    // one instalment of `limit` steps, a read, and the rest
+                    let want_full = format!("{first}-4\ndone");
+                    match mcx::guarded(|| real.run_to_completion()) {
+                        Ok(Ok(mut mid)) => {
+                            let read_mid = mid.stdout_string().unwrap_or_default();
+                            let again = mid.stdout_string().unwrap_or_default();
+                            if !want_full.starts_with(&read_mid) || read_mid != again {
+                                problem = Some(format!("after {limit} steps the output read {read_mid:?} and then {again:?}; the complete output is {want_full:?}"));
+                            } else {
+                                match mcx::guarded(|| mid.run_to_completion()) {
+                                    Ok(Ok(mut end)) => {
+                                        let got = end.stdout_string().unwrap_or_default();
+                                        let exec_left = observe(&end).exec.len();
+                                        // a second instalment of the same step limit: at most 2 * limit instructions ran
+                                        let want: String = match (2 * limit).min(3) {
+                                            1 => format!("{first}-4"),
+                                            2 => format!("{first}-4\n"),
+                                            _ => want_full.clone(),
+                                        };
+                                        if got != want {
+                                            problem = Some(format!("output {read_mid:?} was read after the first {limit} steps; after {limit} more steps the output is {got:?}, expected {want:?} ({exec_left} items left)"));
+                                        }
+                                    }
+                                    other => problem = Some(format!("the second instalment did not return a state: {:?}", other.map(|r| r.is_ok()))),
+                                }
+                            }
+                        }
+                        other => problem = Some(format!("the first instalment did not return a state: {:?}", other.map(|r| r.is_ok()))),
+                    }
+                }
+                if let Some(w) = problem {
+                    run.violation("output/read-is-an-observation".to_string(), format!("program [Int-Print, PrintNewline, PrintString(done)] on ints [7, -4], earlier output {first:?}, step limit {limit}: {w}"), json!({"check":"C01","kind":"print-read"}));
+                }
+            }
+        }
+    }
     run.bound("e.print_chars", json!(PRINT_CHARS.iter().map(|c| format!("U+{:04X}", *c as u32)).collect::<Vec<_>>()));
     st
 }
@@ -1089,6 +1144,18 @@ pub fn replay(mode: Mode, v: &Value) -> bool {
                     true
                 }
             }
+        }
+        Some("print-read") => {
+            let mut r = Run::new("C01", "quick");
+            print_texts(mode, &mut r);
+            let g = r.violations.lock().unwrap();
+            for (k, x) in g.iter() {
+                println!("MISMATCH [{k}]: {}", x.what);
+            }
+            if g.is_empty() {
+                println!("replay: property held");
+            }
+            g.is_empty()
         }
         Some("constructor") => {
             let mut r = Run::new("C01", "quick");
